@@ -30,6 +30,7 @@ def run(chk):
         return
     index, changed = troute.regenerate(chk, bins["sym_c04"], "c04")
     troute.tv(chk, bins["sym_c04"], "c04", 400 if chk.thorough else 64)
+    troute.lean_tv(chk, bins["sym_c04"], "c04", index, n=6 if chk.thorough else 2)
 
     def search(name):
         return troute.lean_search(chk, "ImathVerif.Props.C04", name, IMPORTS, ["ImathVerif"], binary=bins["sym_c04"])
